@@ -55,8 +55,13 @@ NAMES = ['n0', 'n1', 'n2', 'n3']
 def gen_universe(rnd, big=False):
     n = rnd.randint(3, 9 if big else 7)
     tasks = []
+    small_pool = rnd.random() < 0.3      # many objects share few ids: most attach attempts meet an equal id somewhere
+    pool = max(2, n // 2)
     for k in range(n):
-        tid = rnd.randint(1, n) if rnd.random() < 0.25 else k + 1
+        if small_pool:
+            tid = rnd.randint(1, pool) if rnd.random() < 0.6 else k + 1
+        else:
+            tid = rnd.randint(1, n) if rnd.random() < 0.25 else k + 1
         tasks.append({'id': tid, 'name': rnd.choice(NAMES)})
     nw = rnd.choice([1, 1, 2, 2, 3])
     wbs = [({'title': f'W{k}'} if rnd.random() < 0.3 else {}) for k in range(nw)]
@@ -96,6 +101,20 @@ def gen_op(rnd, s, u):
             return rnd.choice(cur)
         return rnd.choice(T)
 
+    # tasks sitting in a released (detached) tree: re-attaching them, or parts of them, is the follow-up the
+    # removal paths have to survive (stale owners, stale ids)
+    loose = [k for k in T if s['T'][k]['owner'] is None]
+    members = [k for k in T if s['T'][k]['owner'] is not None]
+    if loose and members and rnd.random() < 0.07:
+        a, b = rnd.choice(loose), rnd.choice(members)
+        r = rnd.random()
+        if r < 0.45:
+            return ['parent=', a, b]
+        if r < 0.8:
+            return ['append', ['t', b], a]
+        if r < 0.9:
+            return ['append', ['w', s['T'][b]['owner']], a]
+        return ['floordiv', ['t', b], [a], True]
     c = rnd.randrange(100)
     if c < 9:
         return ['parent=', t, x if rnd.random() < 0.85 else None]
@@ -377,10 +396,28 @@ def run_history(prop, spec, ops, acc, gen=None, tail=True):
     n = len(ops) if ops is not None else gen[1]
     corrupt = False
     s_after = snap(u)
+    prefix = []
+    if ops is None and gen[0].random() < 0.45:
+        # builder prefix: a WBS tree with chains (depth up to 4) so that deep states are common starting points
+        rnd = gen[0]
+        labs = list(s_after['T'])
+        placed = []
+        for lab in labs:
+            if rnd.random() < 0.2:
+                continue
+            if placed and rnd.random() < 0.75:
+                par = placed[-1] if rnd.random() < 0.6 else rnd.choice(placed)
+                prefix.append(['append', ['t', par], lab])
+            else:
+                prefix.append(['append', ['w', rnd.choice(list(s_after['R']))], lab])
+            placed.append(lab)
+        n += len(prefix)
     for step in range(n):
         s0 = s_after
         if ops is not None:
             op = ops[step]
+        elif step < len(prefix):
+            op = prefix[step]
         else:
             op = gen_op(gen[0], s0, u)
         if op[0] == 'stale.use' and op[1] not in u.stale:
@@ -458,7 +495,11 @@ def run_history(prop, spec, ops, acc, gen=None, tail=True):
         viol = []   # (prop, key, msg)
         for p, nm, detail in inv:
             viol.append((p, f'{p}/{nm}/{name}' + (f':{ac}' if ac else ''), f'{nm} after {name}({ac}) -> {outcome}: {detail}'))
-        broken = bool(inv)
+        # "broken": the forest / link structure itself is corrupt (C01) -- later verdicts would only be consequences.
+        # Violations of C05/C11 alone (duplicate id, stale owner) leave the structure walkable, so the history goes on
+        # unless the property under check is the one that fired.
+        broken = any(p == 'C01' for p, _, _ in inv)
+        own_fired = any(p == prop for p, _, _ in inv)
 
         # ---- C01
         if prop == 'C01':
@@ -481,9 +522,8 @@ def run_history(prop, spec, ops, acc, gen=None, tail=True):
                 acc.sig(sh, name, outcome, sorted(dupkinds))
             if exp and would_dup(exp) and outcome not in ('ok', 'raise:RuntimeError', 'raise:UserCallable'):
                 viol.append(('C05', f'C05/wrong-exception-type/{name}', f'{name} that would duplicate an id raised {outcome[6:]}, not RuntimeError'))
-            if not broken:
-                for v in _lookup_checks(u, s1, acc, sh, name):
-                    viol.append(v)
+            for v in _lookup_checks(u, s1, acc, sh, name, structure_ok=not inv):
+                viol.append(v)
         # ---- C11
         if prop == 'C11':
             acc.ev()
@@ -525,8 +565,9 @@ def run_history(prop, spec, ops, acc, gen=None, tail=True):
                         acc.sig(shape(s0), name, ac)
                     if step >= 3:
                         acc.count('deep_state_calls')
-                got = setlevel(s1, owner=False)
-                if not broken and got not in [setlevel(e, owner=False) for e in exp]:
+                # owners are part of the documented effect ("releases the tasks left out", "takes its whole subtree along")
+                got = setlevel(s1, owner=True)
+                if not broken and got not in [setlevel(e, owner=True) for e in exp]:
                     viol.append(('C16', f'C16/{name}' + (f':{ac}' if ac else ''),
                                  f'{name}({ac}) returned but effect differs from the documented one: got-vs-model {diff(exp[0], s1)}'))
                 elif not broken and ret_exp[0] == 'val' and ret is not ret_exp[1] and ret != ret_exp[1]:
@@ -539,7 +580,7 @@ def run_history(prop, spec, ops, acc, gen=None, tail=True):
             case = {'kind': 'history', 'spec': spec, 'ops': executed, 'history': history}
             for p, k, m in mine[:2]:
                 acc.violation(k, m, case)
-        if broken or polluted:
+        if broken or polluted or own_fired:
             # corrupted state, or an object the workload never got hold of (half-constructed Task of a
             # failed constructor) is wired into the graph: later verdicts would only be consequences
             corrupt = True
@@ -634,8 +675,19 @@ def _links_relative(s0, op):
     return any(x in rel for x in L)
 
 
-def _lookup_checks(u, s1, acc, sh, name):
+def _lookup_checks(u, s1, acc, sh, name, structure_ok=True):
     out = []
+    if not structure_ok:
+        # with a corrupt structure "the members" are ill-defined; one clause still is not: no task object is listed twice
+        for wl in s1['R']:
+            try:
+                listed = [u.L(t) for t in u.wobj[wl].tasks]
+            except Exception:
+                continue
+            acc.ev()
+            if len(set(listed)) != len(listed):
+                out.append(('C05', 'C05/tasks-lists-member-twice', f'{wl}.tasks = {listed}'))
+        return out
     ids = []
     for v in s1['T'].values():
         if v['id'] not in ids:
